@@ -9,7 +9,7 @@ use crate::Outcome;
 use glass_easel_stylesheet_compiler::{StyleSheetOptions, StyleSheetTransformer};
 
 const PIECES: &[&str] = &[".a", "/*c*/", " ", "{", "}", "color:red", ";", ":is(", ")", "calc(1px + ", "2px", "1rpx", ",", "#b", "[x]", "\n", "\u{1F600}", "width:", "@media (min-width:1px)"];
-const BOUND: &str = "all concatenations of <= 4 pieces from 19 directed pieces (selectors, comments, whitespace, blocks, calc, rpx, astral), default options and prefix+rpx options; plus 8 clause subsets x 3 separators x 2 trailers of @import under an import sign";
+const BOUND: &str = "all concatenations of <= 4 pieces from 19 directed pieces (selectors, comments, whitespace, blocks, calc, rpx, astral), default options and prefix+rpx options; 60 :host rules (5 heads x 3 bodies x 4 surroundings) with conversion on, normal and low-priority output; plus 8 clause subsets x 3 separators x 2 trailers of @import under an import sign";
 
 fn u16_to_byte(line: &str, col: usize) -> Option<usize> {
     let mut u = 0;
@@ -21,13 +21,23 @@ fn u16_to_byte(line: &str, col: usize) -> Option<usize> {
     if u == col { Some(line.len()) } else { None }
 }
 fn check(css: &str) -> Option<(String, String)> {
-    for k in 0..2 {
-        let opts = if k == 0 { StyleSheetOptions::default() } else { StyleSheetOptions { class_prefix: Some("p".into()), rpx_ratio: 750., ..Default::default() } };
+    const ALL: &[char] = &['@', '#', '{', '[', '(', ':', ',', ';'];
+    // in the outputs of a :host conversion the selector `[wx-host="p"],[is="h"]` is synthesised: only characters that are always copied
+    const HOST: &[char] = &['@', '#', '{', '(', ';'];
+    for k in 0..4 {
+        let opts = match k {
+            0 => StyleSheetOptions::default(),
+            1 => StyleSheetOptions { class_prefix: Some("p".into()), rpx_ratio: 750., ..Default::default() },
+            _ => StyleSheetOptions { class_prefix: Some("p".into()), rpx_ratio: 750., convert_host: true, host_is: Some("h".into()), ..Default::default() },
+        };
+        if k >= 2 && !css.to_ascii_lowercase().contains("host") { continue; }
+        let low = k == 3;
+        let copied = if k >= 2 { HOST } else { ALL };
+        let pick = |t: StyleSheetTransformer| { if k >= 2 { let (n, l) = t.output_and_low_priority_output(); if low { l } else { n } } else { t.output() } };
         let mut text = String::new();
-        StyleSheetTransformer::from_css("p.wxss", css, opts.clone()).output().write_str(&mut text).unwrap();
+        pick(StyleSheetTransformer::from_css("p.wxss", css, opts.clone())).write_str(&mut text).unwrap();
         let text16: Vec<u16> = text.encode_utf16().collect();
-        let t = StyleSheetTransformer::from_css("p.wxss", css, opts);
-        let out = t.output();
+        let out = pick(StyleSheetTransformer::from_css("p.wxss", css, opts));
         let sm = out.extract_source_map();
         let lines: Vec<&str> = css.split('\n').collect();
         let mut last = 0u32;
@@ -54,7 +64,7 @@ fn check(css: &str) -> Option<(String, String)> {
                 if sc.is_whitespace() && o != ' ' {
                     return Some((format!("entry at generated column {} (output {:?}) points into whitespace at source ({}, {})", tk.get_dst_col(), o, tk.get_src_line(), tk.get_src_col()), "the start of the input token".into()));
                 }
-                if matches!(o, '@' | '#' | '{' | '[' | '(' | ':' | ',' | ';') && sc != o {
+                if copied.contains(&o) && sc != o {
                     return Some((format!("entry at generated column {} is {:?} in the output but the source at ({}, {}) reads {:?}", tk.get_dst_col(), o, tk.get_src_line(), tk.get_src_col(), rest.chars().take(12).collect::<String>()), "the same punctuation / at-keyword in the source".into()));
                 }
             }
@@ -121,6 +131,21 @@ pub fn search() -> Outcome {
             Ok(Some((got, want))) => return Outcome { found: true, input: css, observed: got, expected: want, evaluations: count, bound: BOUND.into() },
             Err(_) => return Outcome { found: true, input: css, observed: "panic".into(), expected: "no panic".into(), evaluations: count, bound: BOUND.into() },
             _ => {}
+        }
+    }
+    // :host rules with conversion on, both outputs: the block and everything in it are copied tokens
+    for head in [":host", ":host ", ":host\n", "/*\u{e9}\u{1F600}*/ :host\n\t", ":HOST/*c*/"] {
+        for body in ["{color:red}", "{width:1rpx;top:0}", "{\n  margin:calc(1rpx + 2px) #fff;\n}"] {
+            for (pre, post) in [("", ""), (".a{b:c}\n", ".d{e:f}"), ("@media (min-width:1px){\n", "}"), ("@supports (x:y){@media print{", "}}")] {
+                let css = format!("{}{}{}{}", pre, head, body, post);
+                count += 1;
+                let c2 = css.clone();
+                match std::panic::catch_unwind(move || check(&c2)) {
+                    Ok(Some((got, want))) => return Outcome { found: true, input: css, observed: got, expected: want, evaluations: count, bound: BOUND.into() },
+                    Err(_) => return Outcome { found: true, input: css, observed: "panic".into(), expected: "no panic".into(), evaluations: count, bound: BOUND.into() },
+                    _ => {}
+                }
+            }
         }
     }
     for d in 1..=4usize {
